@@ -70,6 +70,14 @@ WITNESS_TESTS = {
     "append_to": "core/src/socket/dealer_socket.rs", "test_filter": "verif_sndtimeo_deadline_witness",
     "what": "in-crate: queue at the high-water mark, SNDTIMEO 300 ms, the queue-activity notifier fired every 100 ms: the waiting send answers timeout after about 300 ms, not never",
   },
+  "c02_push_frame_by_frame_two_peers": {
+    "file": "witness/c02_push_frame_by_frame_two_peers.rs", "props": ["C02", "C13"], "pairs_fn": ["PushSocket::send", "PushSocket::try_send_sync"],
+    "what": "PUSH with two PULL peers sends 40 two-frame messages frame by frame (send() with MORE): every message arrives whole at exactly one peer",
+  },
+  "c02_pub_frame_by_frame_under_hwm": {
+    "file": "witness/c02_pub_frame_by_frame_under_hwm.rs", "props": ["C02"], "pairs_fn": ["PubSocket::send"],
+    "what": "PUB (SNDHWM 4, SNDTIMEO 0) publishes 3000 three-frame messages frame by frame to a slow SUB: whatever arrives is a whole message, never frames missing or glued",
+  },
   "c02_inproc_reader_too_many_frames": {
     "file": "witness/c02_inproc_reader_too_many_frames.rs", "props": ["C02", "C07"], "pairs_fn": ["inproc_reader_body"],
     "what": "PUSH sends 300 MORE frames frame by frame over inproc to a PULL: no panic inside rzmq (panic hook), the connection is closed like over tcp",
@@ -187,6 +195,8 @@ PROPS["C02"] = {
            "exactly the application's frames in order, payload untouched, MORE on all but the last; Socket::send_multipart refuses more than 255 frames with an error; DEALER / REP admission checks guarantee the capacity preconditions of the delimiter / envelope; "
            "ROUTER prepends exactly one identity frame to a received message and refuses (ProtocolViolation) a message that leaves no room for it; "
            "the detach of a pipe resets ROUTER's frame-by-frame send in progress only if that send is addressed to the detached connection (unit routerfrag). "
+           "Frame-by-frame sending (unit flags: PUSH send + try_send_sync, PUB send): a frame with MORE is held back and nothing reaches the router path / the fan-out; the last frame hands on the held-back frames plus itself as ONE batch "
+           "(so a PUSH message goes to one peer, and a PUB message is dropped for a slow subscriber as a whole or not at all); a message beyond 255 frames is refused, never sent in part. "
            "inproc (unit inprocrd, the body of the direct-inproc reader task as a region, three nested loops): frames forwarded ++ frames waiting ++ accumulator == frames taken off the channel at every point, however the frames of a message are spread "
            "over wake-ups of the task; only batches ending in a frame without MORE are forwarded; the reassembly never overruns the 255-frame capacity (a longer message closes the connection).",
   "level_note": "Unit anon uses the sequential lock model for the frame cache (one task receives at a time) and an abstract ReadyPipeQueue (its pop order is a ghost sequence; cancel safety of pop() assumed); queued batches are assumed to be whole messages "
@@ -282,7 +292,7 @@ PROPS["C18"]["claim"] = ("Record layer only, for ANY cipher (encrypt/decrypt abs
                          "Secrecy, tamper detection by the AEAD itself and cross-session nonce/key freshness are cryptographic and not decided here.")
 
 PROPS["C13"] = {
-  "units": ["lb", "route"],
+  "units": ["lb", "route", "flags"],
   "kani_quick": [], "kani_thorough": [],
   "claim": "Proved for every history of add/remove/get on the verbatim LoadBalancer (representation invariant: no duplicate peers, cursor in range): get_next_connection serves exactly the peer under the cursor and advances it round-robin; "
            "a peer joins once at the end; removing a peer keeps the order of the others and the peer that would have been served next is still next (its successor if it was the removed one). "
